@@ -144,6 +144,7 @@ func load(repo string, opt loadOptions) (*Program, error) {
 		}
 	}
 	p.collectFuncs()
+	p.unspillReturns()
 	if len(p.SrcFunc) < 50 {
 		return nil, fmt.Errorf("only %d source functions found; refusing to analyse a stub", len(p.SrcFunc))
 	}
@@ -305,4 +306,56 @@ func recvTypeName(fn *ssa.Function) string {
 		return n.Obj().Name()
 	}
 	return ""
+}
+
+// unspillReturns undoes, where it is safe, what go/ssa does to the return statements of a function that defers: each
+// `return a, b` becomes stores into result variables, `rundefers`, loads of the variables and a return of the loads.
+// When no closure captures a result variable nothing can change it between the store and the load, and the return
+// is given back the stored value as its operand. A function that merely gains a defer statement then looks to the
+// rules as it did before.
+func (p *Program) unspillReturns() {
+	for _, fn := range p.Funcs {
+		if fn.Blocks == nil || !p.inModule(fn) {
+			continue
+		}
+		for _, b := range fn.Blocks {
+			r, ok := b.Instrs[len(b.Instrs)-1].(*ssa.Return)
+			if !ok {
+				continue
+			}
+			for k, v := range r.Results {
+				u, ok := v.(*ssa.UnOp)
+				if !ok || u.Op != token.MUL {
+					continue
+				}
+				a, ok := u.X.(*ssa.Alloc)
+				if !ok || a.Parent() != fn {
+					continue
+				}
+				private := true
+				for _, ref := range *a.Referrers() {
+					switch x := ref.(type) {
+					case *ssa.Store:
+						if x.Addr != ssa.Value(a) {
+							private = false
+						}
+					case *ssa.UnOp, *ssa.DebugRef:
+					default:
+						private = false
+					}
+				}
+				if !private {
+					continue
+				}
+				nv := resultAt(r, k)
+				if nv == v || nv == nil {
+					continue
+				}
+				r.Results[k] = nv
+				if refs := nv.Referrers(); refs != nil {
+					*refs = append(*refs, r)
+				}
+			}
+		}
+	}
 }
